@@ -40,6 +40,8 @@ Definition check_export_sem (par : bool) (text : string) (tab : list (qexpr * (f
   match p_program (lex text) with
   | None => 0
   | Some stmts =>
+      if negb (accepts (lex text)) then 1          (* parsed, but not a valid program (static checks): it has no meaning *)
+      else
       match run_program fops f_of_N feps ftol (flit tab) par stmts (mkState n v) draws with
       | Ok s => 1 + 2 + 4 * b2n (impl_ok && vclose (0x1.12e0be826d695p-30 * fmax 1 (vmaxabs v))%float (vec s) w)
                   + 8 * b2n (impl_ok && phase_close (0x1.12e0be826d695p-30 * fmax 1 (vmaxabs v))%float (vec s) w)
